@@ -32,7 +32,7 @@ def check(run, replay=None):
     run.trusted += ["harness tools/props/c18.py (numbers nodes/links, turns the returned pandas objects into lists)"]
     run.assumptions += ["nx.connected_components is not modelled; its effect is checked through the returned labelling on every case",
                         "links with both ends at the same node (self-loops) are not generated"]
-    ok, log, fails = common.coq_make(["theories/C18/Proofs.vo"])
+    ok, log, fails = common.coq_make(["theories/C18/Proofs.vo", "theories/C18/Total.vo"])
     if not ok:
         for f, ln, msg in fails:
             run.tie_broken("proof no longer checks: %s line %s: %s" % (f, ln, common.theorem_line(f, ln)), msg)
